@@ -19,18 +19,58 @@ fn rp_of(r: &RankPair) -> RP {
     }
 }
 
+/// the six orders in which rank_pairs() (0), orphan_card_pairs() (1) and to_string() (2) can be called first on a
+/// freshly built range
+const CALL_ORDERS: [[u8; 3]; 8] = [[0, 1, 2], [1, 0, 2], [2, 1, 0], [1, 2, 0], [0, 2, 1], [2, 0, 1], [0, 1, 9], [1, 0, 9]];
+
+/// the order used for a range is a function of its contents, so that the big pattern families spread over all six
 pub fn check_split(c: &Contents) -> Option<Value> {
+    let h: usize = c.iter().map(|(k, w)| k.id() * 7 + (*w as usize % 5)).sum::<usize>() + c.len();
+    // wide ranges: only the two orders without to_string() (formatting 1,326 combos per pattern would triple the cost);
+    // the second round of questions is left to the call-orders sub-check
+    if c.len() > 64 {
+        check_split_in_order(c, 6 + h % 2, false)
+    } else {
+        check_split_in_order(c, h % 6, false)
+    }
+}
+
+pub fn check_split_in_order(c: &Contents, order: usize, ask_again: bool) -> Option<Value> {
     let cc = c.clone();
     let r = catch(move || {
         let range = range_of(&cc);
-        let rps: Vec<(RP, u32)> = range.rank_pairs().iter().map(|(k, w)| (rp_of(k), w.to_bits())).collect();
-        let left: Contents = range.orphan_card_pairs().iter().map(|(cp, w)| (Combo::of(cp), w.to_bits())).collect();
-        (rps, left)
+        let mut rps: Vec<(RP, u32)> = vec![];
+        let mut left = Contents::new();
+        for call in CALL_ORDERS[order % 8] {
+            match call {
+                0 => rps = range.rank_pairs().iter().map(|(k, w)| (rp_of(k), w.to_bits())).collect(),
+                1 => left = range.orphan_card_pairs().iter().map(|(cp, w)| (Combo::of(cp), w.to_bits())).collect(),
+                2 => {
+                    let _ = range.to_string();
+                }
+                _ => {}
+            }
+        }
+        if !ask_again {
+            return (rps, left, true);
+        }
+        // ... and asked again, on the same object and on a clone, the answers stay the same
+        let again: Vec<(RP, u32)> = range.rank_pairs().iter().map(|(k, w)| (rp_of(k), w.to_bits())).collect();
+        let left_again: Contents = range.clone().orphan_card_pairs().iter().map(|(cp, w)| (Combo::of(cp), w.to_bits())).collect();
+        let mut a = rps.clone();
+        let mut b = again;
+        a.sort();
+        b.sort();
+        let stable = a == b && left == left_again;
+        (rps, left, stable)
     });
-    let (rps_v, left) = match r {
+    let (rps_v, left, stable) = match r {
         Ok(x) => x,
-        Err(e) => return Some(json!({"panic": e})),
+        Err(e) => return Some(json!({"panic": e, "first_calls_in_order": CALL_ORDERS[order % 8]})),
     };
+    if !stable {
+        return Some(json!({"problem": "asked a second time (same object / a clone) rank_pairs() or orphan_card_pairs() answer differently", "first_calls_in_order (0 rank_pairs, 1 orphan_card_pairs, 2 to_string)": CALL_ORDERS[order % 8]}));
+    }
     let rps: BTreeMap<RP, u32> = rps_v.iter().cloned().collect();
     if rps.len() != rps_v.len() {
         return Some(json!({"problem": "a rank pair is reported twice"}));
@@ -288,6 +328,53 @@ pub fn run(tier: &str) -> i32 {
         }
         rep.sub("build-histories", "every rank pair, complete at weight 0.5, built six ways that insert a combo more than once (collect with every combo twice, collect over an overwritten first pass, the last combo twice, the token twice, the token overwritten, the token followed by one of its combos): reported once, no leftovers", n, n, true, json!({}));
     }
+    // every order of first calls on a fresh object (a view computed lazily, or memoised by whichever observer runs
+    // first, must not depend on that order): all patterns of JJ, AKs and every 2-state pattern of Q9o, alone and
+    // inside the full range, x the six orders of {rank_pairs, orphan_card_pairs, to_string}
+    {
+        let mut jobs: Vec<(RP, u64, bool, u64)> = vec![];
+        for bg in [false, true] {
+            for chunk in 0..16u64 {
+                jobs.push((RP::Pocket(3), 3, bg, chunk));
+                jobs.push((RP::Suited(0, 1), 3, bg, chunk));
+                jobs.push((RP::Pocket(12), 3, bg, chunk));
+                if !bg || thorough {
+                    jobs.push((RP::Offsuit(2, 5), 2, bg, chunk));
+                }
+            }
+        }
+        let outs = par_map(jobs.len(), |j| {
+            let (rp, states, bg, chunk) = jobs[j];
+            let combos = rp.combos();
+            let total = states.pow(combos.len() as u32);
+            let mut bad = vec![];
+            let mut n = 0u64;
+            for code in (0..total).filter(|c| c % 16 == chunk) {
+                let mut c = if bg { full.clone() } else { Contents::new() };
+                for cb in &combos {
+                    c.remove(cb);
+                }
+                pattern(&combos, code, states, wa, wb, &mut c);
+                for order in 0..6usize {
+                    n += 1;
+                    if let Some(b) = check_split_in_order(&c, order, true) {
+                        if bad.len() < 2 {
+                            bad.push((c.clone(), order, b));
+                        }
+                    }
+                }
+            }
+            (bad, n)
+        });
+        let mut n = 0u64;
+        for (bad, k) in outs {
+            n += k;
+            for (c, order, b) in bad {
+                rep.violation(Violation { key: format!("range={} first calls in order {:?}", contents_text(&c), CALL_ORDERS[order]), sub: "call-orders".into(), case: json!({"contents": c.iter().map(|(k, w)| json!([k.0, k.1, w])).collect::<Vec<_>>(), "order": order}), expected: json!("M-split, whichever of rank_pairs() (0), orphan_card_pairs() (1), to_string() (2) is called first on the fresh range"), observed: b });
+            }
+        }
+        rep.sub("call-orders", "all 3^6 patterns of JJ and of 22, all 3^4 of AKs and all 2^12 of Q9o, alone and (Q9o: thorough only) inside the full range, each on a fresh object under all six orders of first calls of rank_pairs(), orphan_card_pairs() and to_string(), then asked again on the object and on a clone (every other sub-check uses one of the six orders per range, chosen by its contents)", n, n, true, json!({}));
+    }
     // a few whole-range cases
     let mut extra = 0u64;
     for c in [Contents::new(), full.clone()] {
@@ -305,5 +392,8 @@ pub fn run(tier: &str) -> i32 {
 pub fn replay(case: &Value) -> Value {
     let arr = case["contents"].as_array().unwrap();
     let c: Contents = arr.iter().map(|e| (Combo(e[0].as_u64().unwrap() as u8, e[1].as_u64().unwrap() as u8), e[2].as_u64().unwrap() as u32)).collect();
+    if let Some(o) = case.get("order").and_then(|x| x.as_u64()) {
+        return json!({"contents": contents_text(&c), "first_calls_in_order": CALL_ORDERS[o as usize % 6], "discrepancy": check_split_in_order(&c, o as usize, true)});
+    }
     json!({"contents": contents_text(&c), "discrepancy": check_split(&c)})
 }
